@@ -160,7 +160,8 @@ fn check_resource_consumption(context: &CheckerContext) -> GenericResult<()> {
             GenericError::from(format!("cannot find resource '{resource_id}' in list of available resources"))
         })?;
 
-        if consumed > available {
+        // NOTE loads with several dimensions are only partially ordered: check that consumption fits in each one
+        if !available.can_fit(&consumed) {
             Err(GenericError::from(format!(
                 "consumed more resource '{resource_id}' than available: {consumed} vs {available}"
             )))
